@@ -1,9 +1,16 @@
 package main
 
 import (
+	"bufio"
+	"bytes"
+	"encoding/json"
 	"fmt"
+	"io"
 	"net/http"
 	"strings"
+
+	"github.com/go-openapi/runtime"
+	"github.com/go-openapi/runtime/client"
 
 	"github.com/go-openapi/runtime/security"
 )
@@ -48,7 +55,42 @@ func check(c Case) (v verdict) {
 	panic("unknown mode " + c.Mode)
 }
 
+// shared holds the instances that survive from one step of a sequence to the next:
+// the client Runtime and the server's authenticator value.
+type shared struct {
+	rt     *client.Runtime
+	rtKey  string
+	auth   runtime.Authenticator
+	rec    *recorder
+	srvKey string
+}
+
+func jsonKey(v any) string { b, _ := json.Marshal(v); return string(b) }
+
+// checkUnit runs the case and, on the same Runtime and (for an equal server
+// description) the same authenticator value, the cases chained through Then.
+// Every step is judged by the reference exactly as if it ran on fresh instances.
 func checkUnit(c Case) verdict {
+	sh := &shared{}
+	v := checkUnitOn(c, sh)
+	step := 1
+	for n := c.Then; n != nil && v.class == ""; n = n.Then {
+		step++
+		if n.Mode != "unit" || jsonKey(n.Client.Default) != jsonKey(c.Client.Default) {
+			return verdict{outcome: "skipped-ambiguous:sequence steps must be unit cases with the same default credential"}
+		}
+		vn := checkUnitOn(*n, sh)
+		if vn.class != "" {
+			vn.class += "/after-other-requests-on-shared-instances"
+			vn.what = fmt.Sprintf("step %d of a sequence on one Runtime and one authenticator value: %s", step, vn.what)
+			return vn
+		}
+		v = verdict{outcome: "seq:" + vn.outcome, reached: v.reached || vn.reached, seen: v.seen + "\n  then: " + vn.seen}
+	}
+	return v
+}
+
+func checkUnitOn(c Case, sh *shared) verdict {
 	abs := abstract(c.Client)
 	if abs.ambiguous != "" {
 		// the enumerators never produce these; a hand-written replay might
@@ -56,7 +98,10 @@ func checkUnit(c Case) verdict {
 	}
 	exp := expect(abs, c.Server)
 
-	creq, err := buildClientRequest(c.Client, "c14.example", "/op")
+	if sh.rt == nil {
+		sh.rt = newRuntime(c.Client, "c14.example")
+	}
+	creq, err := buildClientRequestOn(sh.rt, c.Client, "/op")
 	if err != nil {
 		return fail("client-build-error", "CreateHttpRequest: %v", err)
 	}
@@ -74,9 +119,33 @@ func checkUnit(c Case) verdict {
 		sreq = creq
 		defer release(creq)
 	}
-	rec := newRecorder(c.Server.CB)
-	obs := authenticate(c.Server, sreq, rec)
+	if k := jsonKey(c.Server); sh.auth == nil || sh.srvKey != k {
+		sh.rec = newRecorder(c.Server.CB)
+		sh.auth = buildAuthenticator(c.Server, sh.rec)
+		sh.srvKey = k
+	}
+	rec := sh.rec
+	rec.calls = nil
+	obs := authenticateWith(sh.auth, c.Server, sreq, rec)
 	v := judge(c.Client, c.Server, abs, exp, rec, obs, raw, defaultSlot)
+	// observation only (MAY: the text says nothing about the body): is the request body
+	// still readable after authentication
+	if c.Wire && abs.formKind != "" && v.class == "" {
+		if ctl, err := http.ReadRequest(bufio.NewReader(bytes.NewReader(raw))); err == nil {
+			want, _ := io.ReadAll(ctl.Body)
+			rest, _ := io.ReadAll(sreq.Body)
+			if len(want) > 0 {
+				if bytes.Equal(want, rest) {
+					v.outcome += "|body-intact"
+				} else {
+					v.outcome += "|body-consumed"
+				}
+			}
+		}
+	}
+	if len(c.Client.Extra) > 0 && v.class == "" {
+		v.outcome += "|carriers"
+	}
 	if verbose {
 		var calls []string
 		for _, k := range obs.calls {
@@ -145,7 +214,7 @@ func judge(cl *Client, s *Server, abs *absReq, exp expectation, rec *recorder, o
 				}
 				return fail("default-auth/applied-although-forbidden", "%s authenticator: %s, which is the transport-wide default credential, although %s%s", kind, got, why, ctxt())
 			}
-			return fail("applies-without-credential/"+kind, "%s authenticator: %s, expected not applicable (%s)%s", kind, got, exp.why, ctxt())
+			return fail("applies-without-credential/"+kind+decoySfx(cl, s), "%s authenticator: %s, expected not applicable (%s)%s", kind, got, exp.why, ctxt())
 		}
 		if obs.principal != nil {
 			return fail("principal-not-callbacks/"+kind, "not applicable, but a principal %v is returned and no callback ran%s", obs.principal, ctxt())
@@ -156,7 +225,7 @@ func judge(cl *Client, s *Server, abs *absReq, exp expectation, rec *recorder, o
 				return fail("marker/failed-basic-realm", "basic authenticator not applicable: FailedBasicAuth = %q, expected realm %q", obs.failedRealm, want)
 			}
 		}
-		return verdict{outcome: kind + ":not-applicable", reached: abs.auth != nil || len(abs.headers)+len(abs.query)+len(abs.form) > 0}
+		return verdict{outcome: kind + ":not-applicable", reached: abs.auth != nil || len(abs.headers)+len(abs.query)+len(abs.form)+len(abs.cookies) > 0}
 	}
 
 	if !obs.applies {
@@ -263,6 +332,35 @@ func fromDefault(cl *Client, abs *absReq, s *Server, exp expectation) bool {
 		return exp.token == string(d.Token)
 	}
 	return false
+}
+
+// decoySfx: the request has a carrier with the credential's name in a place where
+// this authenticator is not specified to look.
+func decoySfx(cl *Client, s *Server) string {
+	for _, e := range cl.Extra {
+		n := strings.ToLower(string(e.Name))
+		own := false
+		hit := false
+		switch s.Kind {
+		case "basic":
+			hit = n == "authorization"
+		case "bearer":
+			hit = n == "authorization" || n == "access_token"
+			own = n == "access_token" && (e.In == "query" || e.In == "form")
+		case "apikey":
+			if strings.ToLower(s.In) == "header" {
+				hit = n == strings.ToLower(string(s.Name))
+				own = e.In == "header"
+			} else {
+				hit = string(e.Name) == string(s.Name) || n == strings.ToLower(string(s.Name))
+				own = e.In == "query" && string(e.Name) == string(s.Name)
+			}
+		}
+		if hit && !own {
+			return "/decoy-carrier-in-" + e.In
+		}
+	}
+	return ""
 }
 
 func mayKey(why string) string {
